@@ -115,8 +115,12 @@ class Pins:
 
 
 def norm(text: str) -> str:
-    """normal form of an expression given as text"""
-    return ast.unparse(ast.parse(text, mode="eval").body)
+    """normal form of an expression given as text (sides of == are sorted)"""
+    tree = ast.parse(text, mode="eval").body
+    if isinstance(tree, ast.Compare) and len(tree.ops) == 1 and isinstance(tree.ops[0], ast.Eq):
+        a, b = sorted((ast.unparse(tree.left), ast.unparse(tree.comparators[0])))
+        return f"{a} == {b}"
+    return ast.unparse(tree)
 
 
 class State:
@@ -243,6 +247,34 @@ class _Expander(ast.NodeTransformer):
         return node
 
 
+class _UpdateSimplifier(ast.NodeTransformer):
+    """clingo's AST.update(k=v) returns a copy with attribute k replaced: X.update(k=v).k -> v, X.update(k=v).a -> X.a"""
+
+    def visit_Attribute(self, node: ast.Attribute) -> ast.AST:
+        self.generic_visit(node)
+        base = node.value
+        while (
+            isinstance(base, ast.Call)
+            and isinstance(base.func, ast.Attribute)
+            and base.func.attr == "update"
+            and not base.args
+            and all(kw.arg for kw in base.keywords)
+        ):
+            for kw in base.keywords:
+                if kw.arg == node.attr:
+                    return kw.value
+            base = base.func.value
+        if base is not node.value:
+            return ast.Attribute(value=base, attr=node.attr, ctx=node.ctx)
+        return node
+
+
+def _simplify_update(node: ast.expr) -> ast.expr:
+    if ".update(" not in ast.unparse(node):
+        return node
+    return _UpdateSimplifier().visit(node)
+
+
 @dataclass
 class Summary:
     """what is known about the arguments when a helper returns truthy / falsy / not-None"""
@@ -265,12 +297,17 @@ class Interp:
         clear_marks_at: Optional[dict[int, str]] = None,
         summaries: Optional["SummaryTable"] = None,
         depth: int = 0,
+        mark_stmts: Optional[dict[int, str]] = None,
+        mark_loop_body: Optional[dict[int, str]] = None,
     ) -> None:
         self.prg = prg
         self.func = func
         self.pins = pins or Pins()
         self.mark_edges = mark_edges or {}
         self.clear_marks_at = clear_marks_at or {}
+        self.mark_stmts = mark_stmts or {}
+        self.mark_loop_body = mark_loop_body or {}
+        self.loop_back: dict[int, list[State]] = {}
         self.summaries = summaries
         self.depth = depth
         self.reach: dict[int, list[State]] = {}
@@ -319,7 +356,7 @@ class Interp:
         return False
 
     def expand(self, node: ast.expr, st: State) -> ast.expr:
-        return _Expander(st.alias, self.renames).visit(copy.deepcopy(node))
+        return _simplify_update(_Expander(st.alias, self.renames).visit(copy.deepcopy(node)))
 
     def text(self, node: ast.expr, st: State) -> str:
         return ast.unparse(self.expand(node, st))
@@ -338,6 +375,52 @@ class Interp:
                 return None
             out |= vals
         return frozenset(out)
+
+    def return_truths(self) -> set[Optional[bool]]:
+        """possible truthiness of the value returned (None = unknown); falling off the end counts as False"""
+        out: set[Optional[bool]] = set()
+        for node, st in self.returns:
+            if node.value is None:
+                out.add(False)
+                continue
+            for s2 in [st.copy()]:
+                exp = self.expand(node.value, s2)
+                outcomes = self._truth3(node.value, s2)
+                out |= outcomes
+        if self.exits:
+            out.add(False)
+        return out
+
+    def _truth3(self, node: ast.expr, st: State) -> set[Optional[bool]]:
+        """three-valued truth of an expression in a state, without learning"""
+        if isinstance(node, ast.BoolOp):
+            vals = [self._truth3(v, st) for v in node.values]
+            is_and = isinstance(node.op, ast.And)
+            res: set[Optional[bool]] = set()
+            # conservative combination
+            if is_and:
+                if any(v == {False} for v in vals):
+                    return {False}
+                if all(v == {True} for v in vals):
+                    return {True}
+            else:
+                if any(v == {True} for v in vals):
+                    return {True}
+                if all(v == {False} for v in vals):
+                    return {False}
+            return {None}
+        if isinstance(node, ast.UnaryOp) and isinstance(node.op, ast.Not):
+            return {None if v is None else (not v) for v in self._truth3(node.operand, st)}
+        if isinstance(node, ast.Call) and isinstance(node.func, ast.Name) and node.func.id == "bool" and len(node.args) == 1:
+            return self._truth3(node.args[0], st)
+        if isinstance(node, ast.IfExp):
+            test = self._truth3(node.test, st)
+            if test == {True}:
+                return self._truth3(node.body, st)
+            if test == {False}:
+                return self._truth3(node.orelse, st)
+            return self._truth3(node.body, st) | self._truth3(node.orelse, st)
+        return {self.eval_atom(self.expand(node, st), st)}
 
     def known(self, site: ast.AST) -> list[tuple[str, object]]:
         """knowledge common to all states reaching site: (key, True/False) facts and (key, frozenset) value sets"""
@@ -437,6 +520,10 @@ class Interp:
         return flow
 
     def stmt(self, node: ast.stmt, st: State) -> "Flow":
+        mark = self.mark_stmts.get(id(node))
+        if mark and mark not in st.marks:
+            st = st.copy()
+            st.marks = st.marks | {mark}
         self._record(node, st)
         method = getattr(self, "s_" + type(node).__name__, None)
         if method is None:
@@ -541,6 +628,15 @@ class Interp:
         entry = [st]
         if isinstance(node, ast.For):
             entry = self.touch(node.iter, st)
+        bmark0 = self.mark_loop_body.get(id(node))
+        if bmark0:
+            cleared = []
+            for s in entry:
+                if bmark0 in s.marks:
+                    s = s.copy()
+                    s.marks = s.marks - {bmark0}
+                cleared.append(s)
+            entry = cleared
         head_seen: dict[tuple, State] = {}
         work = entry
         exits: list[State] = []
@@ -549,25 +645,42 @@ class Interp:
         assigned = self._assigned_in(node.body)
         mark = self.clear_marks_at.get(id(node))
         self.loop_depth += 1
-        collapsed: Optional[State] = None
+        collapsed: Optional[dict[tuple, State]] = None
+
+        def gkey(s: State) -> tuple:
+            consts = tuple(sorted((k, unparse(v)) for k, v in s.alias.items() if isinstance(v, ast.Constant)))
+            return (consts, tuple(sorted(s.marks)))
+
         while work:
             rounds += 1
             fresh: list[State] = []
             if collapsed is None and rounds > MAX_LOOP_ROUNDS:
-                # single-state mode: information only decreases from here on, so this terminates
+                # collapsed mode: one state per (flag values, marks); information only decreases -> terminates
                 self.widened = True
-                collapsed = self._merge(list(head_seen.values()) + work)
-                for name in assigned:
-                    collapsed.kill_root(name)
-                fresh = [collapsed]
+                collapsed = {}
+                for s in list(head_seen.values()) + work:
+                    s = self._head_norm(s, assigned)
+                    k = gkey(s)
+                    collapsed[k] = self._merge([collapsed[k], s]) if k in collapsed else s
+                fresh = list(collapsed.values())
             elif collapsed is not None:
-                merged = self._merge([collapsed] + work)
-                for name in assigned:
-                    merged.kill_root(name)
-                if merged.sig() == collapsed.sig():
-                    break
-                collapsed = merged
-                fresh = [collapsed]
+                for s in work:
+                    s = self._head_norm(s, assigned)
+                    k = gkey(s)
+                    if k not in collapsed:
+                        collapsed[k] = s
+                        fresh.append(s)
+                    else:
+                        merged = self._merge([collapsed[k], s])
+                        if merged.sig() != collapsed[k].sig():
+                            collapsed[k] = merged
+                            fresh.append(merged)
+                if len(collapsed) > MAX_STATES:
+                    one = self._merge(list(collapsed.values()))
+                    for name in assigned:
+                        one.kill_root(name)
+                    collapsed = {gkey(one): one}
+                    fresh = [one]
             else:
                 for s in work:
                     key = self._head_key(node, s, assigned)
@@ -596,11 +709,20 @@ class Interp:
                         else:
                             exits.append(s2)
             if body_in:
+                bmark = self.mark_loop_body.get(id(node))
+                if bmark:
+                    marked = []
+                    for b in body_in:
+                        b = b.copy()
+                        b.marks = b.marks | {bmark}
+                        marked.append(b)
+                    body_in = marked
                 sub = self.block(node.body, body_in)
                 flow.ret.extend(sub.ret)
                 flow.exc.extend(sub.exc)
                 brk.extend(sub.brk)
                 work = self._dedup(sub.fall + sub.cont)
+                self.loop_back.setdefault(id(node), []).extend(work)
         self.loop_depth -= 1
         exits = self._dedup(exits)
         if node.orelse and exits:
@@ -686,6 +808,10 @@ class Interp:
     def _assign_name(self, name: str, value: Optional[ast.expr], st: State) -> None:
         """bind local `name` to (already expanded) value"""
         if value is None:
+            st.kill_root(name)
+            return
+        if isinstance(value, (ast.List, ast.Dict, ast.Set, ast.ListComp, ast.SetComp, ast.DictComp, ast.GeneratorExp)):
+            # a fresh mutable object: its text does not identify it (two `[]` are different lists)
             st.kill_root(name)
             return
         self_ref = name in names_in(value)
@@ -800,7 +926,12 @@ class Interp:
                 for s in states:
                     nxt.extend(self.touch(child.value, s))
                 states = self._dedup(nxt)
-        if isinstance(node, ast.Call) and isinstance(node.func, ast.Attribute) and node.func.attr in MUTATORS:
+        if (
+            isinstance(node, ast.Call)
+            and isinstance(node.func, ast.Attribute)
+            and node.func.attr in MUTATORS
+            and not (node.func.attr == "update" and not node.args)  # clingo AST.update(k=v) returns a copy
+        ):
             out = []
             for s in states:
                 recv = self.expand(node.func.value, s)
@@ -1006,7 +1137,7 @@ class Interp:
                 return self._eval_none(left, st)
             if self._fact(f"{key} is None", st) is True:
                 return False
-            return None
+            return self._fact(self._eq_key(left, right), st)
         if unparse(left) == unparse(right):
             return True
         return self._fact(self._eq_key(left, right), st)
